@@ -50,8 +50,8 @@ def parsePow2 (W r : Nat) (src : List Nat) : Except ParseError Nat :=
 
 -- ---------------------------------------------------------------- non-power-of-two radices
 
-/-- parse `CHUNK_LEN` -/
-def parseChunkLen : Nat := 256
+/-- parse `CHUNK_LEN`: the constant regenerated from integer/src/parse/non_power_two.rs (Tie A) -/
+def parseChunkLen : Nat := Dashu.Gen.parse_CHUNK_LEN
 
 /-- `non_power_two::parse_word`: `word = word * radix + digit` from the left -/
 def parseWordLoop (r : Nat) : List Nat → Nat → Except ParseError Nat
